@@ -188,9 +188,9 @@ var convAssumptions = []string{
 
 var convRule = map[string]string{
 	"C05": "rapid-drawn histories on one long-lived struct per root type: Scribble (arbitrary prior contents) and Read(X) with X = restart of a written object | framework decode of a state-like value | framework decode of a value with null/unknown anywhere; oracles: reference decode (normal form), reused == fresh target, excluded fields bit-identical, twin carrying payload under every null/unknown gives the same result. distinct = distinct (root, op-kind sequence) classes; every history has >= 1 op",
-	"C06": "fault configuration of the same simulator: single corruption faults enumerated at every site of healthy objects plus seeded fault sets",
+	"C06": "fault configuration of the same simulator: per drawn healthy object (written in place | restarted | framework-decoded) either every single fault at every site (delete attribute, wrong-typed value, nil interface, nil Attrs, nil Elems, at any depth) or a seeded set of 2-5 independent faults; for CopyTo every single attribute-type removal reached by the drawn source, or a seeded set. distinct = distinct (root, healthy kind, number of enumerated sites | fault-kind multiset | removed type paths) classes",
 	"C07": "histories on one long-lived struct with every oneof holder preset by Preset ops; Read of values with at most one known non-null branch per group (exact holder oracle, no normal form) or several (no-panic only); WriteEmpty: CopyTo of any active branch / none into the empty object (inactive null, active non-null if payload non-zero). distinct = distinct (root, op-kind sequence) classes",
-	"C08": "plan/echo cycles on one object: plan = framework decode (alternately through the msgpack durable form) of a value with any mix of null/unknown/known, at most one non-null branch per oneof, no null elements, numbers in range; fresh struct <- plan; struct -> same plan object; path-wise oracle on tftypes.Value; next plan derived from the previous result. distinct = distinct (root, cycle count) classes",
+	"C08": "plan/echo cycles on one object: plan = framework decode (alternately through the msgpack durable form) of a value with any mix of null/unknown/known, at most one non-null branch per oneof, no null elements, numbers in range; fresh struct <- plan; struct -> same plan object; path-wise oracle on tftypes.Value; next plan derived from the previous result. distinct = distinct (root, sequence of top-level null/unknown/known patterns of the plans) classes",
 	"C09": "sequences of in-place CopyTo on one long-lived object starting from the empty schema-typed object: Write(fresh or mutated source biased to grow/shrink/empty/nil transitions) and Repeat; after each write the attribute-wise oracle of C09 against the source and the pre-write state. distinct = distinct (root, op-kind sequence) classes",
 }
 
